@@ -24,6 +24,7 @@ From Galaxy.Model Require Import Nets Pool Ipam Plugin.
 From Galaxy.Model Require Keys.
 From Galaxy.Proofs Require Import IpamP PluginInv PluginUnbindP PluginWitness PluginStaleP PluginPolicyP PluginLiveP.
 From Galaxy.Proofs Require Import PluginReplicasP.
+From Galaxy.Proofs Require Import PluginRoundsP.
 Local Open Scope N_scope.
 
 (** 1. Safety, one step of a well-formed history: an IP allocated under the key of pod [q] that is free or keyed
@@ -319,3 +320,61 @@ Example immutable_dp_nonvacuous :
          e_node e' = [] ∧ e_policy e' = 1).
 Proof. exact c03_dp_example_l. Qed.
 Print Assumptions immutable_dp_nonvacuous.
+
+(** 8. Two events of ONE immutable deployment, handled one after the other, free exactly the surplus
+    (Proofs/PluginRoundsP.v; twin of the monitor immutable_dp_concurrent_events_release_the_surplus).
+
+    ANY world satisfying [WInv].  [q1], [q2] are the FIRST and the SECOND queued event ([w_queue w !! 0], [w_queue w !! 1]);
+    a worker handles the head of the queue twice: [PEvent 0] on [w], then [PEvent 0] again on the world reached (a handled
+    event leaves the queue, so position 0 then holds [q2]); both are answered ROk.  [q1] and [q2] are two different pods
+    (different names) of one deployment ns/app with the immutable policy ([policy_of q = 1], hence no pool annotation);
+    the key of each holds exactly one IP ([x1] resp. [x2]), stored for the UID of the event's pod; the store calls of the
+    two sections do not fail.  With [n0] = the number of IPs the app holds under its prefix "dp_ns_app_" before, and
+    [r] = the replicas of the deployment, [r ≠ 0] (a deployment that is gone, or scaled to 0, releases everything:
+    [immutable_dp_over_replicas_releases] does not need [r ≠ 0]):
+    afterwards the app holds [n0 - min 2 (n0 - r)] IPs (natural-number subtraction) - the two events free exactly what
+    the app holds beyond its replicas, at most the two pods' own IPs; what is not freed is parked under the prefix key.
+    Deviations from the statement asked for: no premise on the provider or on [f_cloud] (the answer ROk says that the
+    provider loop went through; it leaves tables and workloads alone); [r] is [N.to_nat] of the model's replica count. *)
+Theorem two_events_release_the_surplus : ∀ w q1 q2 o1 oun1 fl1 o2 oun2 fl2 w1 w2 x1 e1 x2 e2,
+  WInv w → w_queue w !! 0%nat = Some q1 → w_queue w !! 1%nat = Some q2 →
+  pd_kind q1 = KDp → pd_kind q2 = KDp → policy_of q1 = 1 → policy_of q2 = 1 →
+  pd_ns q2 = pd_ns q1 → pd_app q2 = pd_app q1 → pd_name q2 ≠ pd_name q1 →
+  f_store fl1 = None → f_store fl2 = None →
+  i_alloc (w_ipam w) !! x1 = Some e1 → e_key e1 = pod_key q1 → e_uid e1 = pd_uid q1 →
+  (∀ y e, i_alloc (w_ipam w) !! y = Some e → e_key e = pod_key q1 → y = x1) →
+  i_alloc (w_ipam w) !! x2 = Some e2 → e_key e2 = pod_key q2 → e_uid e2 = pd_uid q2 →
+  (∀ y e, i_alloc (w_ipam w) !! y = Some e → e_key e = pod_key q2 → y = x2) →
+  default 0 (w_dps w !! (pd_ns q1, pd_app q1)) ≠ 0 →
+  pstep w (PEvent 0 o1 oun1 fl1) = (w1, ROk) → pstep w1 (PEvent 0 o2 oun2 fl2) = (w2, ROk) →
+  let prefix := Keys.pool_prefix (keyobj_of q1) in
+  let n0 := List.length (by_prefix (w_ipam w) prefix) in
+  let r := N.to_nat (default 0 (w_dps w !! (pd_ns q1, pd_app q1))) in
+  List.length (by_prefix (w_ipam w2) prefix) = (n0 - min 2 (n0 - r))%nat.
+Proof. exact two_events_release_the_surplus_l. Qed.
+Print Assumptions two_events_release_the_surplus.
+
+(** The hypotheses are satisfiable.  Reachable worlds [c03_w_dp2 repl] = [c03_w_dp repl] continued with the deletion of
+    app-5c-x2: the events of app-5c-x1 (10.100.0.2, uD) and app-5c-x2 (10.100.0.3, uE) are queued in this order, the app
+    holds 2 IPs.  [repl] = 1: the first event frees 10.100.0.2, the second parks 10.100.0.3: 2 - min 2 (2 - 1) = 1.
+    [repl] = 2: both are parked: 2 - min 2 (2 - 2) = 2. *)
+Example two_events_nonvacuous :
+  let q1 := c03_dpod in let q2 := c03_dpod2 in
+  let ev1 := PEvent 0 (c03_orc None None [c03_ip]) [] no_faults in
+  let ev2 := PEvent 0 (c03_orc None None [c03_ip + 1]) [] no_faults in
+  let prefix := Keys.pool_prefix (keyobj_of q1) in
+  ∀ repl, repl = 1 ∨ repl = 2 →
+  let w := c03_w_dp2 repl in
+  WInv w ∧ w_queue w !! 0%nat = Some q1 ∧ w_queue w !! 1%nat = Some q2 ∧
+  pd_kind q1 = KDp ∧ pd_kind q2 = KDp ∧ policy_of q1 = 1 ∧ policy_of q2 = 1 ∧
+  pd_ns q2 = pd_ns q1 ∧ pd_app q2 = pd_app q1 ∧ pd_name q2 ≠ pd_name q1 ∧
+  (∃ e1, i_alloc (w_ipam w) !! c03_ip = Some e1 ∧ e_key e1 = pod_key q1 ∧ e_uid e1 = pd_uid q1) ∧
+  (∀ y e, i_alloc (w_ipam w) !! y = Some e → e_key e = pod_key q1 → y = c03_ip) ∧
+  (∃ e2, i_alloc (w_ipam w) !! (c03_ip + 1) = Some e2 ∧ e_key e2 = pod_key q2 ∧ e_uid e2 = pd_uid q2) ∧
+  (∀ y e, i_alloc (w_ipam w) !! y = Some e → e_key e = pod_key q2 → y = c03_ip + 1) ∧
+  default 0 (w_dps w !! (pd_ns q1, pd_app q1)) = repl ∧
+  List.length (by_prefix (w_ipam w) prefix) = 2%nat ∧
+  (pstep w ev1).2 = ROk ∧ (pstep (pstep w ev1).1 ev2).2 = ROk ∧
+  List.length (by_prefix (w_ipam (pstep (pstep w ev1).1 ev2).1) prefix) = (if repl =? 1 then 1%nat else 2%nat).
+Proof. exact c03_two_events_example_l. Qed.
+Print Assumptions two_events_nonvacuous.
